@@ -124,6 +124,14 @@ def build_rsome(prims, z, rng=None):
         I = list(_idx(prim, n))
         full = (I == list(range(n)))
         zi = z if full else z[I]
+        if t == 'box' and prim.get('exp_spell'):
+            # the same box written with exponential constraints only:
+            # exp(z_i) <= e^hi_i  and  exp(-z_i) <= e^-lo_i   (no linear piece in the set)
+            lo_ = np.asarray(prim['lo'], float)
+            hi_ = np.asarray(prim['hi'], float)
+            out.append(rso.exp(zi) <= np.exp(hi_))
+            out.append(rso.exp(-zi) <= np.exp(-lo_))
+            continue
         if t == 'box':
             lo = _ua(prim['lo'])
             hi = _ua(prim['hi'])
